@@ -243,11 +243,26 @@ pub fn check_iter(case: &IterCase, mode: &str) -> Result<String, String> {
         if got.len() != want.len() {
             return Err(format!("scope {:?}: {} showdowns, expected {}", sc, got.len(), want.len()));
         }
-        for (k, (g, w)) in got.iter().zip(want.iter()).enumerate() {
-            if !same(g, w) {
-                return Err(format!("scope {:?}: showdown #{} is board={:?} combos={:?} p={} expected board={:?} combos={:?} p={}", sc, k, g.0, g.1, g.2, w.0, w.1, w.2));
+        // boards must come position by position in enumeration order (C04); WITHIN one board the order of the players'
+        // combos is not part of any property, so each board's showdowns are compared as a multiset
+        let groups = |v: &Vec<Deal>| -> Vec<([Card; 5], Vec<(String, u32)>)> {
+            let mut out: Vec<([Card; 5], Vec<(String, u32)>)> = vec![];
+            for d in v.iter() {
+                let key = (format!("{:?}", d.1), if d.2.is_nan() { u32::MAX } else { d.2.to_bits() });
+                match out.last_mut() { Some(l) if l.0 == d.0 => l.1.push(key), _ => out.push((d.0, vec![key])) }
+            }
+            for g in out.iter_mut() { g.1.sort(); }
+            out
+        };
+        let (gg, gw) = (groups(&got), groups(&want));
+        for (k, (g, w)) in gg.iter().zip(gw.iter()).enumerate() {
+            if g.0 != w.0 { return Err(format!("scope {:?}: board #{} is {:?}, expected {:?}", sc, k, g.0, w.0)); }
+            if g.1 != w.1 {
+                let bad = g.1.iter().zip(w.1.iter()).find(|(a, b)| a != b).map(|(a, b)| format!("{} p={} where {} p={} is expected", a.0, f32::from_bits(a.1), b.0, f32::from_bits(b.1))).unwrap_or_else(|| format!("{} showdowns, expected {}", g.1.len(), w.1.len()));
+                return Err(format!("scope {:?}: board {:?}: {}", sc, g.0, bad));
             }
         }
+        if gg.len() != gw.len() { return Err(format!("scope {:?}: {} boards, expected {}", sc, gg.len(), gw.len())); }
         total += got.len();
     }
     if mode == "c04" && case.scopes.len() > 1 {
@@ -268,7 +283,7 @@ pub fn gen_iter_case(rng: &mut Rng, it: u64) -> IterCase {
     for i in 0..51 { let j = i + rng.below((52 - i) as u64) as usize; deck.swap(i, j); }
     let flop = [card(deck[0]), card(deck[1]), card(deck[2])];
     let mode = it % 8;
-    let np = 1 + rng.below(3) as usize;
+    let np = match rng.below(12) { 0 => 0, 1 => 4, _ => 1 + rng.below(3) as usize };   // also no player at all, and four
     let mut ranges = vec![];
     for p in 0..np {
         let size = match mode {
@@ -280,6 +295,7 @@ pub fn gen_iter_case(rng: &mut Rng, it: u64) -> IterCase {
             5 => if p == 0 { 1 } else { 40 },           // narrow beside wide: long blocked runs
             _ => 1 + rng.below(6) as usize,
         };
+        let size = if np >= 4 { size.min(3) } else { size };   // four players: keep the product of range sizes small
         let mut r: Vec<(CardPair, f32)> = vec![];
         let mut guard = 0;
         while r.len() < size && guard < 100000 {
@@ -571,7 +587,7 @@ fn tallies(flop: &[Card; 3], ranges: &Vec<HandRange>) -> Result<Vec<Vec<u64>>, S
     let mut t = vec![vec![0u64; n + 1]; n + 1];
     for sd in FlopExhaustiveEvaluator::new(&board, ranges) {
         let flagged = sd.players().iter().filter(|p| p.is_winner()).count();
-        if flagged == 0 || flagged != sd.winner_len() as usize { return Err(format!("showdown with {} flagged winners and winner_len {}", flagged, sd.winner_len())); }
+        if (flagged == 0 && !sd.players().is_empty()) || flagged != sd.winner_len() as usize { return Err(format!("showdown with {} flagged winners and winner_len {}", flagged, sd.winner_len())); }
         for (i, p) in sd.players().iter().enumerate() { if p.is_winner() { t[i][flagged] += 1; } }
         t[n][0] += 1;
     }
